@@ -49,9 +49,87 @@ let trimu_line line =
   | [a; b] -> let (p, s) = trim_u (parse a) (parse b) in Printf.sprintf "%d %d" (int_of_nat p) (int_of_nat s)
   | _ -> "ERR"
 
+(* ---------- s-expressions of integers: the document syntax written by harness/absdoc.py ---------- *)
+type sx = A of int | L of sx list
+let sx_parse (s : string) : sx =
+  let n = String.length s in
+  let pos = ref 0 in
+  let rec skip () = if !pos < n && (s.[!pos] = ' ' || s.[!pos] = '\t') then (incr pos; skip ()) in
+  let rec go () =
+    skip ();
+    if s.[!pos] = '(' then begin
+      incr pos; let acc = ref [] in
+      let rec loop () = skip (); if s.[!pos] = ')' then incr pos else (acc := go () :: !acc; loop ()) in
+      loop (); L (List.rev !acc) end
+    else begin
+      let st = !pos in
+      while !pos < n && s.[!pos] <> ' ' && s.[!pos] <> ')' && s.[!pos] <> '(' do incr pos done;
+      A (int_of_string (String.sub s st (!pos - st))) end in
+  go ()
+let ai = function A i -> i | _ -> failwith "int expected"
+let al = function L l -> l | _ -> failwith "list expected"
+let to_str x = List.map (fun c -> n_of_int (ai c)) (al x)
+let to_kid x = match al x with
+  | [A 0; s] -> CT (to_str s) | [A 1; s] -> CDelT (to_str s) | [A 2] -> CTab | [A 3] -> CBr | [A 4] -> CCr
+  | [A 5; s] -> CRef (to_str s) | [A 6; A t] -> COther (n_of_int t) | _ -> failwith "kid"
+let to_rpr x = match al x with
+  | [] -> None | [A 1; L l] -> Some (List.map (fun p -> match al p with [A a; A b] -> (n_of_int a, n_of_int b) | _ -> failwith "rpr") l)
+  | _ -> failwith "rpr"
+let to_mark x = match al x with [a; b; c] -> { m_id = to_str a; m_author = to_str b; m_date = to_str c } | _ -> failwith "mark"
+let rec to_node x = match al x with
+  | [A 0; A u; r; L ks] -> NRun (nat_of_int u, to_rpr r, List.map to_kid ks)
+  | [A 1; A u; m; L cs] -> NWrap (nat_of_int u, KIns, to_mark m, List.map to_node cs)
+  | [A 2; A u; m; L cs] -> NWrap (nat_of_int u, KDel, to_mark m, List.map to_node cs)
+  | [A 3; s] -> NCrs (to_str s) | [A 4; s] -> NCre (to_str s) | [A 5; A t] -> NOther (n_of_int t)
+  | _ -> failwith "node"
+let to_style x = match al x with
+  | [A 0; A b] -> PSNormal (b <> 0) | [A 1; A n] -> PSHeading (nat_of_int n) | [A 2] -> PSTitle | _ -> PSOther
+let rec to_block x = match al x with
+  | [A 0; A pid; A ppr; st; L ns] -> BPara { p_id = nat_of_int pid; p_ppr = n_of_int ppr; p_style = to_style st; p_nodes = List.map to_node ns }
+  | [A 1; A tok; L rows] -> BTbl (n_of_int tok, List.map (fun r -> List.map (fun c -> match al c with [A t; L bs] -> (n_of_int t, List.map to_block bs) | _ -> failwith "cell") (al r)) rows)
+  | _ -> failwith "block"
+let to_comment x = match al x with
+  | [a; b; c; d; p] -> { c_id = to_str a; c_author = to_str b; c_date = to_str c; c_text = to_str d;
+                         c_parent = (match al p with [] -> None | [A 1; s] -> Some (to_str s) | _ -> failwith "parent") }
+  | _ -> failwith "comment"
+let to_doc x = match al x with
+  | [L ss; L cs; A nu] -> { d_stories = List.map (fun s -> match al s with [A k; L bs] -> { s_kind = n_of_int k; s_blocks = List.map to_block bs } | _ -> failwith "story") ss;
+                            d_comments = List.map to_comment cs; d_next_uid = nat_of_int nu }
+  | _ -> failwith "doc"
+(* printers (same syntax) *)
+let p_str s = "(" ^ String.concat " " (List.map (fun c -> string_of_int (int_of_n c)) s) ^ ")"
+let p_kid = function CT s -> "(0 " ^ p_str s ^ ")" | CDelT s -> "(1 " ^ p_str s ^ ")" | CTab -> "(2)" | CBr -> "(3)" | CCr -> "(4)"
+  | CRef s -> "(5 " ^ p_str s ^ ")" | COther t -> Printf.sprintf "(6 %d)" (int_of_n t)
+let p_rpr = function None -> "()" | Some l -> "(1 (" ^ String.concat " " (List.map (fun (a, b) -> Printf.sprintf "(%d %d)" (int_of_n a) (int_of_n b)) l) ^ "))"
+let p_mark m = "(" ^ p_str m.m_id ^ " " ^ p_str m.m_author ^ " " ^ p_str m.m_date ^ ")"
+let rec p_node = function
+  | NRun (u, r, ks) -> Printf.sprintf "(0 %d %s (%s))" (int_of_nat u) (p_rpr r) (String.concat " " (List.map p_kid ks))
+  | NWrap (u, k, m, cs) -> Printf.sprintf "(%d %d %s (%s))" (match k with KIns -> 1 | KDel -> 2) (int_of_nat u) (p_mark m) (String.concat " " (List.map p_node cs))
+  | NCrs s -> "(3 " ^ p_str s ^ ")" | NCre s -> "(4 " ^ p_str s ^ ")" | NOther t -> Printf.sprintf "(5 %d)" (int_of_n t)
+let p_style = function PSNormal b -> if b then "(0 1)" else "(0 0)" | PSHeading n -> Printf.sprintf "(1 %d)" (int_of_nat n) | PSTitle -> "(2)" | PSOther -> "(3)"
+let rec p_block = function
+  | BPara p -> Printf.sprintf "(0 %d %d %s (%s))" (int_of_nat p.p_id) (int_of_n p.p_ppr) (p_style p.p_style) (String.concat " " (List.map p_node p.p_nodes))
+  | BTbl (t, rows) -> Printf.sprintf "(1 %d (%s))" (int_of_n t) (String.concat " " (List.map (fun r -> "(" ^ String.concat " " (List.map (fun (t, bs) -> Printf.sprintf "(%d (%s))" (int_of_n t) (String.concat " " (List.map p_block bs))) r) ^ ")") rows))
+let p_comment c = "(" ^ String.concat " " [p_str c.c_id; p_str c.c_author; p_str c.c_date; p_str c.c_text; (match c.c_parent with None -> "()" | Some s -> "(1 " ^ p_str s ^ ")")] ^ ")"
+let p_doc d = Printf.sprintf "((%s) (%s) %d)" (String.concat " " (List.map (fun s -> Printf.sprintf "(%d (%s))" (int_of_n s.s_kind) (String.concat " " (List.map p_block s.s_blocks))) d.d_stories))
+    (String.concat " " (List.map p_comment d.d_comments)) (int_of_nat d.d_next_uid)
+let p_span sp = Printf.sprintf "%s:%d:%d:%d" (show sp.sp_text) (if sp.sp_real then 1 else 0) (int_of_nat sp.sp_uid) (match sp.sp_pid with None -> -1 | Some p -> int_of_nat p)
+(* line: (clean doc) -> spans joined by ';' *)
+let spans_line line = match al (sx_parse line) with
+  | [A c; d] -> String.concat ";" (List.map p_span (doc_spans_u (c <> 0) (to_doc d)))
+  | _ -> "ERR"
+let norm_line line = p_doc (normalize_doc (to_doc (sx_parse line)))
+(* (clean doc): the engine/reader view = projection of the normalised document *)
+let nspans_line line = match al (sx_parse line) with
+  | [A c; d] -> String.concat ";" (List.map p_span (doc_spans_u (c <> 0) (normalize_doc (to_doc d))))
+  | _ -> "ERR"
+let extract_line line = match al (sx_parse line) with
+  | [A c; d] -> show (extract_u (c <> 0) (to_doc d))
+  | _ -> "ERR"
+
 let () =
   let f = match Sys.argv.(1) with
-    | "trim" -> trimu_line | "trim_ascii" -> trim_line | "tokens" -> tokens_line | "diff" -> diff_line | "markup" -> markup_line
+    | "trim" -> trimu_line | "trim_ascii" -> trim_line | "tokens" -> tokens_line | "spans" -> spans_line | "nspans" -> nspans_line | "normalize" -> norm_line | "extract" -> extract_line | "diff" -> diff_line | "markup" -> markup_line
     | m -> failwith ("mode " ^ m) in
   try while true do
     let line = input_line stdin in
